@@ -1,11 +1,21 @@
 import TextxVerif.Wire
 import TextxVerif.Repo
+import TextxVerif.RepoEntry
 /-! Driver for the model-repository machine (C17, C18).
 op:
   {"op":"history","glob":bool,"perRef":bool,"builtins":[[name…]…],
-   "steps":[{"main":f,"files":[{"stmts":[[f…]…],"defs":[n…],"refs":[n…],"syn":bool,"objf":bool,"modf":bool}…]}…]}
+   "steps":[{"main":f,"files":[FILE…]
+             ,"kind":"file"|"str"|"preload"          (optional, default "file")
+             ,"text":FILE                            (kind str: the model without file name)
+             ,"calls":[[f…]…]                        (kind preload: the registered patterns, expanded)
+            }…]}
+  FILE = {"stmts":[[f…]…],"defs":[n…],"refs":[n…],"syn":bool,"objf":bool,"modf":bool}
   → {"steps":[{"res":tag,"reads":[f…],"ret":i,"all":[[f,i]…],"next":n,
                "locs":[[i,file,[[f,j]…]]…],"tgt":[[i,[["e",j,n]|["b",k,n]…]]…]}…]}
+  file = `Repo.loadMain` (model_from_file; model_from_str with file_name: the read of the main file
+  is the parse of the string), str = `Repo.loadStr` (file numbers ≥ #files are the invented names
+  anonymous0, anonymous1, …; "ret" meaningless unless ok), preload = `Repo.preload` on the dict of
+  the global repository, or of a fresh repository when glob is false ("ret" meaningless).
 -/
 open Lean Wire Repo
 
@@ -23,8 +33,10 @@ def parseFile (j : Json) : Option FileSpec := do
   pure { stmts, defs := ← getNatList? j "defs", refs := ← getNatList? j "refs",
          syn := ← getBool? j "syn", objf := ← getBool? j "objf", modf := ← getBool? j "modf" }
 
-def mkSpec (glob perRef : Bool) (builtins : List (List Repo.Name)) (fs : Array FileSpec) : Spec :=
-  let get (f : File) : FileSpec := fs.getD f { stmts := [], defs := [], refs := [], syn := false, objf := false, modf := false }
+def mkSpec (glob perRef : Bool) (builtins : List (List Repo.Name)) (fs : Array FileSpec)
+    (text : FileSpec := { stmts := [], defs := [], refs := [], syn := false, objf := false, modf := false }) : Spec :=
+  -- every number beyond the files is an invented name: the model given as a string
+  let get (f : File) : FileSpec := fs.getD f text
   { calls := fun f => mkCalls (if perRef then (get f).refs.length else 1) (get f).stmts
     defs := fun f => (get f).defs
     refs := fun f => (get f).refs
@@ -56,22 +68,54 @@ def stepJson (before : St) (st : St) (r : Res) (ret : Inst) : Json :=
     ("locs", Json.arr (insts.map fun i => Json.arr #[toJson i, toJson (st.fileOf i), dictJson (st.loc i)]).toArray),
     ("tgt", Json.arr (insts.map fun i => Json.arr #[toJson i, Json.arr ((st.tgt i).map tgtJson).toArray]).toArray)]
 
-def parseStep (j : Json) : Option (File × Array FileSpec) := do
-  let main ← getNat? j "main"
+inductive StepKind
+  | file (main : File)
+  | str (text : FileSpec)
+  | preload (calls : List (List File))
+
+def parseStep (j : Json) : Option (StepKind × Array FileSpec) := do
   let fa ← getArr? j "files"
   let fs ← fa.toList.mapM parseFile
   let n := fs.length
-  if main ≥ n then none
   if fs.any (fun f => f.stmts.any (·.any (· ≥ n))) then none
-  pure (main, fs.toArray)
+  let kind ← match j.getObjVal? "kind" with
+    | .ok k => k.getStr?.toOption
+    | .error _ => some "file"
+  match kind with
+  | "file" =>
+    let main ← getNat? j "main"
+    if main ≥ n then none
+    pure (.file main, fs.toArray)
+  | "str" =>
+    let t ← (j.getObjVal? "text").toOption
+    let text ← parseFile t
+    if text.stmts.any (·.any (· ≥ n)) then none
+    pure (.str text, fs.toArray)
+  | "preload" =>
+    let ca ← getArr? j "calls"
+    let calls ← ca.toList.mapM asNatList?
+    if calls.any (·.any (· ≥ n)) then none
+    pure (.preload calls, fs.toArray)
+  | _ => none
 
 def runSteps (glob perRef : Bool) (builtins : List (List Repo.Name)) :
-    St → List (File × Array FileSpec) → List Json → List Json
+    St → List (StepKind × Array FileSpec) → List Json → List Json
   | _, [], acc => acc.reverse
-  | st, (main, fs) :: rest, acc =>
+  | st, (.file main, fs) :: rest, acc =>
     let S := mkSpec glob perRef builtins fs
     let (st', r, ret) := loadMain S (fs.size + 1) st main
     runSteps glob perRef builtins st' rest (stepJson st st' r ret :: acc)
+  | st, (.str text, fs) :: rest, acc =>
+    let S := mkSpec glob perRef builtins fs text
+    let a := anonKey fs.size (if glob then st.all else [])
+    let (st', r, ret) := loadStr S (fs.size + 1) st a
+    runSteps glob perRef builtins st' rest (stepJson st st' r ret :: acc)
+  | st, (.preload calls, fs) :: rest, acc =>
+    -- the dict of the repository handed to `load_models_in_model_repo`
+    let S := mkSpec true perRef builtins fs
+    let st0 := if glob then st else { st with all := [] }
+    let (st', r) := preload S (fs.size + 1) st0 (mkCalls 1 calls)
+    runSteps glob perRef builtins st' rest (stepJson st st' r 0 :: acc)
 
 def handle (j : Json) : Json :=
   match getStr? j "op" with
